@@ -21,7 +21,7 @@ import ast
 
 from ..engine import REPO, lean_list
 
-FORMATS = ["xyz", "sdf", "mol2", "pdb", "cube", "gromacs", "poscar", "chgcar", "locpot"]
+FORMATS = ["xyz", "sdf", "mol2", "pdb", "cube", "gromacs", "poscar", "chgcar", "locpot", "charmm"]
 
 
 class ShapeError(ValueError):
